@@ -342,6 +342,8 @@ def run(tree, rep, tier):
     r8(prog, rep)
     r6(tree, rep)
     r9(tree, rep)
+    from .. import delegate
+    delegate.check(tree, rep, "C08.R11", only=("closed",), why=" (the closed notification is swallowed or repeated)")
     from .. import payload
     payload.check(tree, rep, "C08.R10", "taken for an undecryptable one: a peer with the right code is closed with WrongPasswordError / mood scary")
     from .C01 import decrypt_raises_only_cryptoerror
@@ -390,3 +392,5 @@ MUTANTS.append(Mutant("stop-chain-skips-stopped-on-failure", "src/wormhole/_rend
                       "a failing stopService() never reaches _stopped: closed never fires (seed C08-11)"))
 REWRITES.append(Rewrite("stop-chain-chained", "src/wormhole/_rendezvous.py", "        d.addErrback(log.err)\n        d.addBoth(self._stopped)", "        d.addErrback(log.err).addBoth(self._stopped)", desc="chained spelling of the same callback chain"))
 REWRITES.append(Rewrite("stop-chain-callbacks", "src/wormhole/_rendezvous.py", "        d.addErrback(log.err)\n        d.addBoth(self._stopped)", "        d.addErrback(log.err)\n        d.addCallback(self._stopped)", desc="after a swallowing errback only success is left"))
+MUTANTS.append(Mutant("delegate-closed-once-flag", WH, "    def closed(self, result):\n        self._delegate.wormhole_closed(result)",
+                      "    def closed(self, result):\n        if getattr(self, \"_closed\", False):\n            return\n        self._closed = True\n        self._delegate.wormhole_closed(result)", "C08.R11", "seed C08-16 family"))
